@@ -186,6 +186,204 @@ Proof.
   destruct (step_key _ _ _ _ _ _ _ k HF HN H) as [_ [_ [_ K]]]. exact K.
 Qed.
 
+(* ---- open state and type bits follow the protocol history ---- *)
+Lemma veq_ospec_step : forall a b t r, veq a b -> veq (ospec_step a t r) (ospec_step b t r).
+Proof.
+  unfold veq. intros a b t r H k.
+  destruct t; try apply H; destruct r; try apply H; cbn [ospec_step];
+  try (rewrite !vget_vset, H; reflexivity); try (rewrite !vget_vdel, H; reflexivity);
+  try (destruct (_ && _); try apply H); rewrite <- H; destruct (vget a fid); try apply H;
+  rewrite !vget_vset, H; reflexivity.
+Qed.
+
+Lemma veq_tspec_step : forall a b t r, veq a b -> veq (tspec_step a t r) (tspec_step b t r).
+Proof.
+  unfold veq. intros a b t r H k.
+  destruct t; try apply H; destruct r; try apply H; cbn [tspec_step];
+  try (rewrite !vget_vset, H; reflexivity); try (rewrite !vget_vdel, H; reflexivity);
+  try (destruct (_ =? _)%nat; try apply H); rewrite <- H; destruct (vget a fid); try apply H;
+  rewrite !vget_vset, H; reflexivity.
+Qed.
+
+Lemma veq_ospec_run : forall h a b, veq a b -> veq (ospec_run a h) (ospec_run b h).
+Proof.
+  induction h as [|[t r] h IH]; intros; simpl; auto. apply IH. apply veq_ospec_step; auto.
+Qed.
+
+Lemma veq_tspec_run : forall h a b, veq a b -> veq (tspec_run a h) (tspec_run b h).
+Proof.
+  induction h as [|[t r] h IH]; intros; simpl; auto. apply IH. apply veq_tspec_step; auto.
+Qed.
+
+(* whether a fid is open, and with which mode, is determined by the requests and
+   the replies they got *)
+Theorem open_state_follows_history : forall cfg c t sc c' r ev,
+  CInv cfg c -> seq_step cfg c t sc = (c', r, ev) ->
+  veq (oabs (c_fids c')) (ospec_step (oabs (c_fids c)) t r).
+Proof.
+  intros until ev. intros [HI _] H k.
+  apply FInv_ext in HI. destruct HI as [ND [HF HN]].
+  destruct (step_key_attr _ _ _ _ _ _ _ k HF HN H) as [K _].
+  rewrite vget_oabs. exact K.
+Qed.
+
+(* ... and so are its type bits *)
+Theorem fid_type_follows_history : forall cfg c t sc c' r ev,
+  CInv cfg c -> seq_step cfg c t sc = (c', r, ev) ->
+  veq (tabs (c_fids c')) (tspec_step (tabs (c_fids c)) t r).
+Proof.
+  intros until ev. intros [HI _] H k.
+  apply FInv_ext in HI. destruct HI as [ND [HF HN]].
+  destruct (step_key_attr _ _ _ _ _ _ _ k HF HN H) as [_ K].
+  rewrite vget_tabs. exact K.
+Qed.
+
+Theorem open_state_follows_history_run : forall cfg h c c' out,
+  CInv cfg c -> seq_run cfg c h = (c', out) ->
+  length out = length h /\
+  veq (oabs (c_fids c')) (ospec_run (oabs (c_fids c)) (combine (map fst h) (map fst out))).
+Proof.
+  induction h as [|[t sc] h IH]; intros c c' out HC H; simpl in H.
+  - inversion H; subst. split; [reflexivity|]. intro k; reflexivity.
+  - destruct (seq_step cfg c t sc) as [[c1 r] ev] eqn:E1.
+    destruct (seq_run cfg c1 h) as [c2 out'] eqn:E2.
+    inversion H; subst.
+    destruct (IH _ _ _ (cinv_step _ _ _ _ _ _ _ HC E1) E2) as [L V].
+    split; [simpl; congruence|].
+    simpl. intro k. rewrite V. apply veq_ospec_run.
+    eapply open_state_follows_history; eauto.
+Qed.
+
+Theorem fid_type_follows_history_run : forall cfg h c c' out,
+  CInv cfg c -> seq_run cfg c h = (c', out) ->
+  length out = length h /\
+  veq (tabs (c_fids c')) (tspec_run (tabs (c_fids c)) (combine (map fst h) (map fst out))).
+Proof.
+  induction h as [|[t sc] h IH]; intros c c' out HC H; simpl in H.
+  - inversion H; subst. split; [reflexivity|]. intro k; reflexivity.
+  - destruct (seq_step cfg c t sc) as [[c1 r] ev] eqn:E1.
+    destruct (seq_run cfg c1 h) as [c2 out'] eqn:E2.
+    inversion H; subst.
+    destruct (IH _ _ _ (cinv_step _ _ _ _ _ _ _ HC E1) E2) as [L V].
+    split; [simpl; congruence|].
+    simpl. intro k. rewrite V. apply veq_tspec_run.
+    eapply fid_type_follows_history; eauto.
+Qed.
+
+(* a request answered with an error, other than Tremove, changes neither the
+   open state nor the type of any fid (nor the fid set) *)
+Theorem error_changes_no_attribute : forall cfg c t sc c' r ev,
+  CInv cfg c -> seq_step cfg c t sc = (c', r, ev) ->
+  is_rerror r = true -> (forall fid, t <> Tremove_ fid) ->
+  veq (abs (c_fids c')) (abs (c_fids c)) /\
+  veq (oabs (c_fids c')) (oabs (c_fids c)) /\
+  veq (tabs (c_fids c')) (tabs (c_fids c)).
+Proof.
+  intros until ev. intros HC H ER NR.
+  pose proof (fid_table_refines_spec _ _ _ _ _ _ _ HC H) as V.
+  pose proof (open_state_follows_history _ _ _ _ _ _ _ HC H) as VO.
+  pose proof (fid_type_follows_history _ _ _ _ _ _ _ HC H) as VT.
+  destruct r; try discriminate ER.
+  destruct t; try (exfalso; exact (NR _ eq_refl)); repeat split; assumption.
+Qed.
+
+(* Tremove, whatever the reply, removes that fid and touches no other *)
+Theorem remove_removes_key_only : forall cfg c fid sc c' r ev,
+  CInv cfg c -> seq_step cfg c (Tremove_ fid) sc = (c', r, ev) ->
+  veq (abs (c_fids c')) (vdel (abs (c_fids c)) fid) /\
+  veq (oabs (c_fids c')) (vdel (oabs (c_fids c)) fid) /\
+  veq (tabs (c_fids c')) (vdel (tabs (c_fids c)) fid).
+Proof.
+  intros until ev. intros HC H.
+  pose proof (fid_table_refines_spec _ _ _ _ _ _ _ HC H) as V.
+  pose proof (open_state_follows_history _ _ _ _ _ _ _ HC H) as VO.
+  pose proof (fid_type_follows_history _ _ _ _ _ _ _ HC H) as VT.
+  destruct r; repeat split; assumption.
+Qed.
+
+(* an open that is not answered with Ropen leaves every open state as it was
+   (in particular a refused second Topen does not close the fid) *)
+Theorem failed_open_keeps_open_state : forall cfg c fid mode sc c' r ev,
+  CInv cfg c -> seq_step cfg c (Topen_ fid mode) sc = (c', r, ev) ->
+  is_rtype r c_Ropen = false ->
+  veq (oabs (c_fids c')) (oabs (c_fids c)).
+Proof.
+  intros until ev. intros HC H NR.
+  pose proof (open_state_follows_history _ _ _ _ _ _ _ HC H) as VO.
+  destruct r; try discriminate NR; assumption.
+Qed.
+
+(* Topen on a fid that is already open is refused, nothing is forwarded, nothing changes *)
+Theorem second_open_refused : forall cfg c fid mode fr sc c' r ev,
+  CInv cfg c -> fget (c_fids c) fid = Some fr -> f_opened fr = true ->
+  seq_step cfg c (Topen_ fid mode) sc = (c', r, ev) ->
+  is_rerror r = true /\ forwarded ev = false /\
+  veq (oabs (c_fids c')) (oabs (c_fids c)) /\ veq (tabs (c_fids c')) (tabs (c_fids c)).
+Proof.
+  intros until ev. intros HC G OP H.
+  assert (A : is_rerror r = true /\ forwarded ev = false).
+  { destruct c as [ms du ft]. cbn [c_fids] in G.
+    start_step H; pre_loop; bool_norm; eqb_norm; use_fget; cbn [setref f_opened] in *; try congruence;
+    cbn [c_fids c_dotu c_msize]; rewrite ?reply0_reject, ?fit_rerror, ?forwarded_post, is_rerror_wire;
+    split; reflexivity. }
+  destruct A as [A1 A2]. split; [exact A1|split; [exact A2|]].
+  destruct (error_changes_no_attribute _ _ _ _ _ _ _ HC H A1 ltac:(intros; discriminate)) as [_ K]. exact K.
+Qed.
+
+(* a walk that is not complete (fewer qids than names) changes no attribute of
+   any fid (in particular an in-place partial walk leaves the type of the fid) *)
+Theorem partial_walk_changes_no_attribute : forall cfg c fid nf names sc c' qs ev,
+  CInv cfg c -> seq_step cfg c (Twalk_ fid nf names) sc = (c', Rwalk_ qs, ev) ->
+  length qs <> length names ->
+  veq (abs (c_fids c')) (abs (c_fids c)) /\
+  veq (oabs (c_fids c')) (oabs (c_fids c)) /\
+  veq (tabs (c_fids c')) (tabs (c_fids c)).
+Proof.
+  intros until ev. intros HC H NE.
+  pose proof (fid_table_refines_spec _ _ _ _ _ _ _ HC H) as V.
+  pose proof (open_state_follows_history _ _ _ _ _ _ _ HC H) as VO.
+  pose proof (fid_type_follows_history _ _ _ _ _ _ _ HC H) as VT.
+  apply Nat.eqb_neq in NE. cbn [spec_step ospec_step tspec_step] in *.
+  rewrite NE in *. repeat split; assumption.
+Qed.
+
+(* Non-vacuity: attach 0 (directory), walk 0->1 to a file, open 1 with mode 2,
+   open 1 again (refused: fid 1 stays open with mode 2), partial in-place walk
+   from 0 (fid 0 stays a directory); the specifications say the same. *)
+Example attributes_nonvacuous :
+  let cfg := start_cfg 8192 true false in
+  let qd := mkQid 128 0 1 in
+  let qf := mkQid 0 0 2 in
+  let h := [(Tattach_ 0 c_NOFID [] [] 5, mkScript (AOk (Rattach_ qd)) None);
+            (Twalk_ 0 1 [[102]], mkScript (AOk (Rwalk_ [qf])) None);
+            (Topen_ 1 2, mkScript (AOk (Ropen_ qf 0)) None);
+            (Topen_ 1 0, mkScript (AOk (Ropen_ qf 0)) None);
+            (Twalk_ 0 0 [[102]; [103]], mkScript (AOk (Rwalk_ [qf])) None)] in
+  let '(c, out) := seq_run cfg (conn_init cfg) h in
+  let hist := combine (map fst h) (map fst out) in
+  map is_rerror (map fst out) = [false; false; false; true; false] /\
+  vget (oabs (c_fids c)) 1 = Some 3 /\ vget (ospec_run [] hist) 1 = Some 3 /\
+  vget (oabs (c_fids c)) 0 = Some 0 /\
+  vget (tabs (c_fids c)) 0 = Some 128 /\ vget (tspec_run [] hist) 0 = Some 128 /\
+  vget (tabs (c_fids c)) 1 = Some 0 /\ vget (tspec_run [] hist) 1 = Some 0.
+Proof. vm_compute. repeat split; reflexivity. Qed.
+
+(* Why [ocode] forgets the mode of a fid that is not open: the handler records the
+   requested mode BEFORE the implementation is asked and does not take it back when
+   the open fails.  The raw f_omode therefore changes under a request answered with
+   Rerror; no rule reads it on a fid that is not open. *)
+Example omode_of_unopened_fid_is_not_restored :
+  let cfg := start_cfg 8192 true false in
+  let qf := mkQid 0 0 2 in
+  let h := [(Tattach_ 0 c_NOFID [] [] 5, mkScript (AOk (Rattach_ qf)) None);
+            (Topen_ 0 2, mkScript (AErr [101] 1) None)] in
+  let '(c, out) := seq_run cfg (conn_init cfg) h in
+  map is_rerror (map fst out) = [false; true] /\
+  option_map f_omode (fget (c_fids c) 0) = Some 2 /\
+  option_map f_opened (fget (c_fids c) 0) = Some false /\
+  vget (oabs (c_fids c)) 0 = Some 0.
+Proof. vm_compute. repeat split; reflexivity. Qed.
+
 (* ---- C05 ---- *)
 (* the 32-bit guard as written equals the limit over the naturals *)
 Theorem count_guard_exact : forall msize cnt,
@@ -235,7 +433,7 @@ Proof.
     by (intros; apply count_guard_exact; lia).
   destruct t;
   start_step H; pre_loop; rewrite ?CG in *; bool_norm; eqb_norm; rewrite forwarded_post;
-  unfold fid_ok, rules_ok, is_valid, count_ok, fid_isdir, fid_isauth, lookup_user;
+  unfold fid_ok, rules_ok, is_valid, count_ok, fid_isdir, fid_isauth, lookup_user, open_for_writing;
   cbn [takes_fid tfid c_fids c_msize c_dotu forwarded existsb is_fwd]; use_fget;
   try destruct wnames; rules_fin HF.
 Qed.
